@@ -1,24 +1,29 @@
 import Cbor.Drv.GenOps
 import Cbor.Drv.ModelOps
+import Cbor.Drv.HistOps
 /-! `cbordrv`: one operation per input line, one canonical result line per operation. -/
 
-def step (L : Nat) (line : String) : String :=
+def step (L : Nat) (hs : Drv.HState) (line : String) : Drv.HState × String :=
   let ws := (line.trimAscii.toString.splitOn " ").filter (· ≠ "")
   match Drv.genOp ws with
-  | some out => out
+  | some out => (hs, out)
   | none =>
     match Drv.modelOp L ws with
-    | some out => out
-    | none => "bad-op"
+    | some out => (hs, out)
+    | none =>
+      match Drv.histOp L hs ws with
+      | some r => r
+      | none => (hs, "bad-op")
 
-partial def loop (L : Nat) (h : IO.FS.Stream) (out : IO.FS.Stream) : IO Unit := do
+partial def loop (L : Nat) (hs : Drv.HState) (h : IO.FS.Stream) (out : IO.FS.Stream) : IO Unit := do
   let line ← h.getLine
   if line.isEmpty then return ()
-  out.putStrLn (step L line)
-  loop L h out
+  let (hs, o) := step L hs line
+  out.putStrLn o
+  loop L hs h out
 
 /-- optional argument: the decoding-stack limit `L` the model is run with (default 2048) -/
 def main (args : List String) : IO Unit := do
   let out ← IO.getStdout
   let L := (args.head?.bind String.toNat?).getD 2048
-  loop L (← IO.getStdin) out
+  loop L {} (← IO.getStdin) out
